@@ -673,7 +673,10 @@ def verify_contract(I, c, timeout_ms=10000, only_case=None):
         res.status, res.message = 'undecided', 'function %s not found in %s (contract no longer attaches)' % (
             c.qualname, c.path)
         return res
-    if getattr(c, 'unroll_own_loops', False):
+    if getattr(c, 'no_loop_cuts', False):
+        # a concrete pre-state (e.g. a concrete token sequence): every loop on the way is executed, none is cut at an invariant
+        I.loopspecs.clear()
+    elif getattr(c, 'unroll_own_loops', False):
         # this contract's pre-state bounds the loops of the function itself (they are executed, not cut at the invariants
         # another contract of the same function gave)
         I.loopspecs[(c.path, fn.qualname)] = {}
